@@ -141,10 +141,12 @@ func parseStep(param lokiapi.OptPrometheusDuration, start, end time.Time) (time.
 }
 
 func defaultStep(start, end time.Time) time.Duration {
-	seconds := math.Max(
-		math.Floor(end.Sub(start).Seconds()/250),
-		1,
-	)
+	// Use integer division: float seconds of a long range
+	// may be rounded up to the next whole second.
+	seconds := int64(end.Sub(start) / (250 * time.Second))
+	if seconds < 1 {
+		seconds = 1
+	}
 	return time.Duration(seconds) * time.Second
 }
 
